@@ -100,8 +100,11 @@ Pre(c) == LET m == MinDim(c)
 Cum(c, i) == LET o == Order(c) IN SumSeq([t \in 1..i |-> Energy(c, o[t])])
 Tot(c) == SumSeq(Energies(c))
 CumX(c, i) == IF i <= P(c) THEN Cum(c, i) ELSE Tot(c)       \* modes beyond the data's rank carry nothing
-Reached(c, i) == CumX(c, i) * c.frac[2] >= c.frac[1] * Tot(c)
-OnBoundary(c) == \E i \in 1..MinDim(c) : CumX(c, i) * c.frac[2] = c.frac[1] * Tot(c)
+\* hair > 0: the requested fraction is the cumulative fraction of the first `hair` modes plus a hair's breadth
+\* (2e-6, far less than any other difference in this world): it is NOT reached by `hair` modes, however narrowly
+Hair(c) == c.hair > 0
+Reached(c, i) == IF Hair(c) THEN i > c.hair ELSE CumX(c, i) * c.frac[2] >= c.frac[1] * Tot(c)
+OnBoundary(c) == ~Hair(c) /\ \E i \in 1..MinDim(c) : CumX(c, i) * c.frac[2] = c.frac[1] * Tot(c)
 FracCount(c) == IF \E i \in 1..Pre(c) : Reached(c, i)
                 THEN CHOOSE i \in 1..Pre(c) : Reached(c, i) /\ \A t \in 1..(i - 1) : ~Reached(c, t)
                 ELSE Pre(c)
@@ -116,7 +119,7 @@ Branches(c) == CASE c.solver = "full" -> {"exact"}
                  [] c.solver = "randomized" -> {Randomised(c)}
                  [] c.solver = "auto" -> {"exact", Randomised(c)}
 
-IsFrac(c) == c.frac[2] # 0
+IsFrac(c) == c.frac[2] # 0 \/ c.hair > 0
 K(c) == IF IsFrac(c) THEN FracCount(c) ELSE c.k
 
 Predict(c) ==
@@ -165,6 +168,8 @@ Admissible(c) ==
           /\ (c.solver # "full") => (c.wp = "ones" /\ c.lp = "none" /\ ~c.std)
           /\ (c.dtype = "complex") => (c.lp = "none" /\ (c.wp = "ones" \/ c.solver = "full"))
     /\ P(c) <= 6
+    /\ Hair(c) => /\ c.frac = <<0, 0>> /\ c.hair < P(c)
+                  /\ Energy(c, Order(c)[c.hair + 1]) * 1000 > Tot(c)        \* the next mode carries far more than the hair
     \* the constant direction as a mode: only meaningful (and only exact) without centring and standardising
     /\ c.constmode => (~c.center /\ ~c.std /\ c.rel = "none" /\ ~IsFrac(c) /\ c.s2[1] > 0)
 
@@ -173,11 +178,12 @@ Init ==
     /\ pred = [k |-> 0]
     /\ \E n \in Ns, s2 \in Spectra, center \in BOOLEAN, std \in BOOLEAN, wp \in WPatterns, lp \in LPatterns,
           frac \in Fracs, irr \in Irrs, kind \in Kinds, rel \in Rels, dtype \in Dtypes, solver \in Solvers,
-          cexp \in Cexps, wide \in BOOLEAN, constmode \in BOOLEAN :
+          cexp \in Cexps, wide \in BOOLEAN, constmode \in BOOLEAN,
+          hair \in (IF Fracs = {<<0, 0>>} THEN {0} ELSE 0..2) :
           \E k \in 1..Len(s2) :
              /\ cfg = [n |-> n, s2 |-> s2, center |-> center, std |-> std, wp |-> wp, lp |-> lp,
                        k |-> k, frac |-> frac, irr |-> irr, kind |-> kind, rel |-> rel,
-                       dtype |-> dtype, solver |-> solver, cexp |-> cexp, wide |-> wide, constmode |-> constmode]
+                       dtype |-> dtype, solver |-> solver, cexp |-> cexp, wide |-> wide, constmode |-> constmode, hair |-> hair]
              /\ Admissible(cfg)
 
 Fit == /\ phase = "cfg"
